@@ -245,16 +245,30 @@ class Tracer:
                 for t in w.get_placed_tasks():
                     try:
                         al = [
-                            [next(k + 1 for k, r in enumerate(self.inst[key]) if r.id == res.id and r.name == res.name), q]
+                            [next((k + 1 for k, r in enumerate(self.inst[key]) if r.id == res.id and r.name == res.name), 0), q]
                             for res, q in w.get_allocated_resources(t)
                         ]
                     except Exception:  # noqa
                         al = [[0, 0]]
                     occ.append({"t": self.tidx[t.id], "sd": self.strat_desc(w._placed_tasks[t]), "al": al})
                 occ.sort(key=lambda o: o["t"])
+                # the worker's availability asked by NAME (wildcard id) equals the sum over its own instances: entries under
+                # foreign resource keys (phantom units) would show up here and nowhere else
+                names = []
+                for r in self.inst[key]:
+                    if r.name not in names:
+                        names.append(r.name)
+                from workload import Resource as _Res
+
+                agg = int(all(
+                    w.resources.get_available_quantity(_Res(name=n, _id="any"))
+                    == sum(w.resources.get_available_quantity(r) for r in self.inst[key] if r.name == n)
+                    for n in names
+                )) if not any(r.id == "any" for r in self.inst[key]) else 1
                 workers[key] = {
                     "p": key[0],
                     "w": key[1],
+                    "agg": agg,
                     "av": [w.resources.get_available_quantity(r) for r in self.inst[key]],
                     "occ": occ,
                     "inpool": sorted(o["t"] for o in occ if o["t"] in pp),
@@ -293,7 +307,7 @@ class Tracer:
             self.prof_index(prof),
             self.tm(strat.runtime),
             [{"name": r.name, "id": r.id, "q": q} for r, q in strat.resources.resources],
-            [[next(k + 1 for k, r in enumerate(self.inst[key]) if r.id == res.id and r.name == res.name), q] for res, q in al],
+            [[next((k + 1 for k, r in enumerate(self.inst[key]) if r.id == res.id and r.name == res.name), 0), q] for res, q in al],
         ]
 
     def tidx_by_strid(self, sid):
